@@ -164,7 +164,21 @@ def Ite(c, a, b):
         return b
     if a == b:
         return a
+    if c.op == 'not':
+        return Ite(c.args[0], b, a)
+    if a.op == 'ctor' and b.op == 'ctor' and a.args[0] == b.args[0] and len(a.args) == 2:
+        return Ctor(a.args[0], Ite(c, a.args[1], b.args[1]))
     if a.sort == BOOL:
+        if a == c:
+            a = TRUE
+        elif a == Not(c):
+            a = FALSE
+        if b == c:
+            b = FALSE
+        elif b == Not(c):
+            b = TRUE
+        if a == b:
+            return a
         if a.op == 'true' and b.op == 'false':
             return c
         if a.op == 'false' and b.op == 'true':
